@@ -126,6 +126,15 @@ def intoIter (t : TD α) : List α := t.data
 /-- `#[derive(Clone)]`: field-wise; `Vec::clone` clones element by element in order (`cl` = `T::clone`) -/
 def clone (cl : α → α) (t : TD α) : TD α := ⟨t.data.map cl, t.numRows, t.numCols⟩
 
+/-- `Clone::clone_from(&mut self, source)`: `#[derive(Clone)]` does not override it, so it is the trait default
+    `*self = source.clone()`: the clone is built first, then the assignment drops the old array.  `fault` = which call of
+    `T::clone` panics, if any (0-based): then `self` is untouched and the clones made so far are dropped by the unwinding.
+    Returns the array afterwards, what was dropped, and the outcome. -/
+def cloneFrom (cl : α → α) (t src : TD α) (fault : Option Nat) : TD α × List α × Res Unit :=
+  match fault with
+  | some k => if k < src.data.length then (t, (src.data.take k).map cl, throw .panic) else (src.clone cl, t.data, pure ())
+  | none => (src.clone cl, t.data, pure ())
+
 /-- `Vec<T> == Vec<T>` / `[T] == [T]`: equal lengths and element-wise `eqα` (= `T::eq`) -/
 def sliceEq (eqα : α → α → Bool) : List α → List α → Bool
   | [], [] => true
